@@ -458,6 +458,20 @@ def harnesses():
         'vhdx-flip': R.Harness('vhdx-flip', scen_vhdx, load_sym_flip,
                                load_real),
     }
+    H['vmdk-text'] = R.Harness('vmdk-text', scen_vmdk_text, load_sym,
+                               load_real)
+    H['vmdk-text'].required_goals = ('text-mode',)
+    H['vmdk'] = R.Harness('vmdk', scen_vmdk, load_sym, load_real)
+    H['vmdk'].required_goals = ('accepted', 'failed', 'truncated-descriptor')
+    H['detect'] = R.Harness('detect', scen_detect, load_sym, load_real)
+    H['detect'].required_goals = ('ife', 'raw', 'specific',
+                                  'early-decision')
+    H['detect-file'] = R.Harness('detect-file', scen_detect_file, load_sym,
+                                 load_real)
+    H['detect-file'].required_goals = ('ife', 'raw', 'specific')
+    H['pipe'] = R.Harness('pipe', scen_pipe, load_sym, load_real)
+    H['pipe'].required_goals = ('clean-run', 'expected-fault',
+                                'expected-mismatch', 'isolated-fault')
     H['safetycheck'] = R.Harness('safetycheck', scen_safetycheck, load_sym,
                                  load_real)
     H['safetycheck'].required_goals = ('ok', 'fail', 'refused')
@@ -567,3 +581,778 @@ def scen_safetycheck(ctx, M):
     ctx.check('C02-safety-outcome', out == want)
     ctx.goal(want.split(':')[0])
     return (out,)
+
+
+# ---------------------------------------------------------------- C06 pipe
+class StubError(Exception):
+    pass
+
+
+STUB_NAMES = ('vhd', 'vhdx', 'qcow2')     # 'vhd' is a substring of 'vhdx'
+
+
+def scen_pipe(ctx, M):
+    """InspectWrapper over m stub inspectors (real FileInspector
+    subclasses) with symbolic fault bits, symbolic complete/match flags,
+    a symbolic stream, symbolic read sizes / iterator chunking and a
+    symbolic expected_format."""
+    fi = M.fi
+    m = ctx.p['stubs']
+    J = ctx.p['chunks']
+    mode = ctx.p['mode']               # 'file' | 'iter'
+    names = STUB_NAMES[:m]
+    expected = ctx.choice('expected', [None] + list(names))
+    fault = [[ctx.bool('f_%d_%d' % (i, j)) for j in range(J)]
+             for i in range(m)]
+    compl = [[ctx.bool('c_%d_%d' % (i, j)) for j in range(J)]
+             for i in range(m)]
+    match = [[ctx.bool('m_%d_%d' % (i, j)) for j in range(J)]
+             for i in range(m)]
+    N = ctx.int('N', 0, 1 << 20)
+    S = ctx.stream('S', N, default='free')
+    stubs = {}
+
+    def mk(i, name):
+        class Stub(fi.FileInspector):
+            NAME = name
+
+            def _initialize(self):
+                self.fed = []
+                self.raised_at = None
+                self.add_safety_check(fi.SafetyCheck.null())
+                stubs[i] = self
+
+            def eat_chunk(self, chunk):
+                j = len(self.fed)
+                self.fed.append(chunk)
+                if j < J and ctx.truth(fault[i][j]):
+                    self.raised_at = j
+                    raise StubError('stub %s chunk %d' % (name, j))
+
+            @property
+            def format_match(self):
+                j = len(self.fed) - 1
+                return ctx.truth(match[i][j]) if 0 <= j < J else False
+
+            @property
+            def complete(self):
+                j = len(self.fed) - 1
+                return ctx.truth(compl[i][j]) if 0 <= j < J else False
+        return Stub
+
+    # the source: J chunks at symbolic cut points
+    cs = cuts(ctx, J - 1, N)
+    bounds = [0] + cs + [N]
+    src_chunks = [S.slice(bounds[j], bounds[j + 1]) for j in range(J)]
+    pulled = [0]
+
+    class FileSrc:
+        def read(self, size):
+            j = pulled[0]
+            pulled[0] += 1
+            return src_chunks[j] if j < J else S.slice(N, N)
+
+    def gen():
+        for j in range(J):
+            pulled[0] += 1
+            yield src_chunks[j]
+
+    saved = fi.ALL_FORMATS
+    fi.ALL_FORMATS = {n: mk(i, n) for i, n in enumerate(names)}
+    try:
+        src = FileSrc() if mode == 'file' else gen()
+        w = fi.InspectWrapper(src, expected_format=expected)
+        got = []
+        outcome = None
+        for j in range(J):
+            try:
+                if mode == 'file':
+                    ch = w.read(bounds[j + 1] - bounds[j])
+                else:
+                    ch = next(w)
+                got.append(ch)
+            except StubError:
+                outcome = ('StubError', j)
+                break
+            except fi.ImageFormatError:
+                outcome = ('ImageFormatError', j)
+                break
+            except StopIteration:
+                outcome = ('StopIteration', j)
+                break
+            except Exception as e:
+                outcome = (type(e).__name__, j)
+                break
+        if outcome is None and mode == 'iter':
+            try:
+                next(w)
+                outcome = ('extra-chunk', J)
+            except StopIteration:
+                pass
+            except Exception as e:
+                outcome = (type(e).__name__, J)
+    finally:
+        fi.ALL_FORMATS = saved
+    # ---- reference: what must have happened
+    want = None
+    alive = [True] * m
+    for j in range(J):
+        ev = None
+        for i, n in enumerate(names):
+            if not alive[i]:
+                continue
+            if ctx.truth(fault[i][j]):
+                alive[i] = False
+                if n == expected:
+                    ev = ('StubError', j)
+            elif n == expected and ctx.truth(compl[i][j]) and \
+                    not ctx.truth(match[i][j]):
+                ev = ev or ('ImageFormatError', j)
+        if ev is not None:
+            want = ev
+            break
+    ctx.check('C06-outcome', outcome == want)
+    stop = want[1] if want else J
+    # transparent pipe: the chunks handed to the reader are the source's
+    ctx.check('C06-count', len(got) == stop)
+    for j, ch in enumerate(got):
+        ctx.check('C06-pipe-%d' % j, h.eqbytes(ch, src_chunks[j]))
+    # the source is not consumed beyond the chunk that cut the stream off
+    ctx.check('C06-no-further-read',
+              pulled[0] == (stop + 1 if want else J))
+    # a failed inspector is never fed again; others see every chunk
+    for i in range(m):
+        st = stubs[i]
+        if st.raised_at is not None:
+            ctx.check('C06-not-fed-after-fault-%d' % i,
+                      len(st.fed) == st.raised_at + 1)
+        elif want is None:
+            ctx.check('C06-fed-all-%d' % i, len(st.fed) == J)
+            for j in range(J):
+                ctx.check('C06-fed-%d-%d' % (i, j),
+                          h.eqbytes(st.fed[j], src_chunks[j]))
+    if want is None:
+        ctx.goal('clean-run')
+    elif want[0] == 'StubError':
+        ctx.goal('expected-fault')
+    else:
+        ctx.goal('expected-mismatch')
+    if any(stubs[i].raised_at is not None and names[i] != expected
+           for i in range(m)):
+        ctx.goal('isolated-fault')
+    return (outcome,)
+
+
+# ---------------------------------------------------------------- C03 detect
+MAGICS0 = [('none', b''), ('qcow2', b'QFI\xfb'), ('qed', b'QED\x00'),
+           ('vhd', b'conectix'), ('vhdx', b'vhdxfile'), ('vmdk', b'KDMV'),
+           ('luks', b'LUKS\xba\xbe'), ('junk', b'\x7fELF')]
+NONRAW = ('qcow2', 'vhd', 'vhdx', 'vmdk', 'vdi', 'qed', 'iso', 'gpt', 'luks')
+
+
+def sig_present(S, name):
+    if name == 'vhdx':
+        return S.has(0, b'vhdxfile')
+    if name == 'vmdk':
+        return S.has(0, b'KDMV')
+    return F.REFS[name].signature(S)
+
+
+def count_true(conds):
+    n = 0
+    for c in conds:
+        n = n + ITE(c, 1, 0)
+    return n
+
+
+def overlay(ctx, fixed):
+    """overlay position-independent signatures (choices fork): VDI magic,
+    MBR signature with/without the FAT look-alike bytes, ISO/UDF
+    descriptors and a near miss.  p['overlays'] = 'single': at most one of
+    them next to the offset-0 magic; 'all': any subset."""
+    isos = [b'\x01CD001', b'\x00NSR02', b'\x01CD002']
+    if ctx.p.get('overlays', 'single') == 'single':
+        pick = ctx.choice('overlay', ['none', 'vdi', 'mbr', 'fat', 0, 1, 2])
+        vdi = pick == 'vdi'
+        mbr = {'mbr': 'yes', 'fat': 'fat'}.get(pick, 'no')
+        iso = isos[pick] if isinstance(pick, int) else None
+    else:
+        vdi = ctx.choice('vdi', [False, True])
+        mbr = ctx.choice('mbr', ['no', 'yes', 'fat'])
+        iso = ctx.choice('iso', [None] + isos)
+    if vdi:
+        for j, b in enumerate((0xbeda107f).to_bytes(4, 'little')):
+            fixed[0x40 + j] = b
+    if mbr != 'no':
+        fixed[510], fixed[511] = 0x55, 0xAA
+        if mbr == 'fat':
+            fixed[0x10], fixed[0x15] = 2, 0xF8
+    if iso:
+        for j, b in enumerate(iso):
+            fixed[32768 + j] = b
+
+
+def pick_n(ctx):
+    """stream length: symbolic in [nmin, nmax], or one of a few small
+    concrete values (text scans make every small length its own path)"""
+    p = ctx.p
+    if p.get('small_n'):
+        return ctx.choice('Nsmall', [0, 3, 4, 8, 63, 64, 100, 511])
+    return ctx.int('N', p.get('nmin', 512), p.get('nmax', 40960))
+
+
+def scen_detect(ctx, M):
+    """InspectWrapper / detect_file_format with all ten real inspectors
+    over a polyglot family: one of the offset-0 magics, plus symbolic VDI
+    magic, MBR signature with the FAT look-alike bytes, and ISO descriptor
+    bytes, over a zero background; stream length and read size symbolic;
+    allowed_formats a symbolic subset over the interesting names."""
+    fi = M.fi
+    p = ctx.p
+    mname, magic = ctx.choice('magic0', [x for x in MAGICS0 if p.get(
+        'magic') in (None, x[0])])
+    fixed = {i: b for i, b in enumerate(magic)}
+    if mname == 'vmdk' and p.get('vmdk_ok'):
+        # a header that passes the sparse checks: version 1, descriptor at
+        # sector 1, one descriptor sector
+        fixed.update({4: 1, 28: 1, 36: 1})
+    if mname == 'vhdx' and p.get('regi'):
+        for j, b in enumerate(b'regi'):
+            fixed[HDR + j] = b
+    overlay(ctx, fixed)
+    N = pick_n(ctx)
+    S = ctx.stream('S', N, fixed=fixed, default=p.get('default', 0),
+                   sym_cells=p.get('sym_cells', ()))
+    # allowed_formats
+    amode = p.get('allowed', 'all')
+    if amode == 'all':
+        allowed = None
+        is_allowed = lambda n: True
+    elif isinstance(amode, list):
+        allowed = list(amode)
+        is_allowed = lambda n: n in amode
+    else:
+        free = [n for n in ('raw', mname, 'gpt', 'iso')
+                if n in fi.ALL_FORMATS]
+        bits = {n: ctx.bool('allow_' + n) for n in free}
+        memo = {}
+
+        def is_allowed(n):
+            if n not in bits:
+                return True
+            if n not in memo:
+                memo[n] = ctx.truth(bits[n])
+            return memo[n]
+
+        class Subset:
+            def __contains__(self, n):
+                return is_allowed(n)
+
+            def __bool__(self):
+                return True
+        allowed = Subset()
+    rsize = p.get('read', 4096)
+    if rsize == 'sym':
+        rsize = ctx.int('rsize', 1, 65536)
+    pos = [0]
+
+    class Src:
+        def read(self, size):
+            a = pos[0]
+            b = h.vmin(a + size, N)
+            if ctx.truth(b > a):
+                pos[0] = b
+                return S.slice(a, b)
+            return S.slice(a, a)
+
+        def close(self):
+            pass
+
+    samples = []
+    exc = None
+    try:
+        w = fi.InspectWrapper(Src(), allowed_formats=allowed)
+        steps = 0
+        while True:
+            ch = w.read(rsize)
+            steps += 1
+            if not ctx.truth(h.length(ch) > 0):
+                break
+            try:
+                f = w.format
+                samples.append(None if f is None else str(f))
+            except fi.ImageFormatError:
+                samples.append('IFE')
+            if steps > p.get('max_reads', 40):
+                ctx.assume(False)
+        w.close()
+        try:
+            fs = w.formats
+            final_formats = sorted(str(x) for x in fs) if fs is not None \
+                else None
+        except fi.ImageFormatError:
+            final_formats = 'IFE'
+        try:
+            f = w.format
+            final = None if f is None else str(f)
+        except fi.ImageFormatError:
+            final = 'IFE'
+    except fi.ImageFormatError:
+        exc = 'ImageFormatError-escaped-read'
+        final = final_formats = None
+    except Exception as e:
+        exc = type(e).__name__
+        final = final_formats = None
+    ctx.check('C03-total', exc is None)
+    if exc is not None:
+        return (exc,)
+    present = {n: AND(is_allowed(n), sig_present(S, n)) for n in NONRAW}
+    npresent = count_true(present.values())
+    raw_ok = is_allowed('raw')
+    ctx.check('C03-decided-after-close', final is not None)
+    if final == 'IFE':
+        ctx.goal('ife')
+        ctx.check('C03-ife-justified',
+                  OR(npresent >= 2, AND(npresent == 0, not raw_ok)))
+    elif final == 'raw':
+        ctx.goal('raw')
+        ctx.check('C03-raw-conservative', AND(npresent == 0, raw_ok))
+    elif final is not None:
+        ctx.goal('specific')
+        ctx.check('C03-allowed', is_allowed(final))
+        ctx.check('C03-signature-present', present[final])
+        ctx.check('C03-exclusive', npresent == 1)
+    if isinstance(final_formats, list):
+        ctx.check('C03-raw-never-mixed',
+                  'raw' not in final_formats or final_formats == ['raw'])
+        for n in final_formats:
+            ctx.check('C03-formats-allowed', is_allowed(n))
+    # no revision: once a format was named, later samples and the final
+    # answer are the same
+    first = None
+    for k, s in enumerate(samples + [final]):
+        if first is None:
+            if s not in (None, 'IFE'):
+                first = s
+                if k < len(samples) - 1:
+                    ctx.goal('early-decision')
+        else:
+            ctx.check('C03-no-revision', s == first)
+    return (final, final_formats, samples)
+
+
+def scen_detect_file(ctx, M):
+    """detect_file_format itself (open() is a stub over the symbolic
+    stream): returns an inspector consistent with the signatures, or
+    raises ImageFormatError, never anything else."""
+    fi = M.fi
+    p = ctx.p
+    mname, magic = ctx.choice('magic0', [x for x in MAGICS0 if p.get(
+        'magic') in (None, x[0])])
+    fixed = {i: b for i, b in enumerate(magic)}
+    overlay(ctx, fixed)
+    N = pick_n(ctx)
+    S = ctx.stream('S', N, fixed=fixed, default=0)
+    pos = [0]
+
+    class F_:
+        def read(self, size):
+            a = pos[0]
+            b = h.vmin(a + size, N)
+            if ctx.truth(b > a):
+                pos[0] = b
+                return S.slice(a, b)
+            return S.slice(a, a)
+
+        def close(self):
+            pass
+
+        def __enter__(self):
+            return self
+
+        def __exit__(self, *a):
+            return False
+
+    def fake_open(name, mode='r'):
+        return F_()
+    if ctx.sym:
+        M.loader.builtins['open'] = fake_open
+        try:
+            try:
+                r = fi.detect_file_format('x')
+                out = str(r)
+            except fi.ImageFormatError:
+                out = 'IFE'
+            except Exception as e:
+                out = 'EXC:' + type(e).__name__
+        finally:
+            import builtins
+            M.loader.builtins['open'] = builtins.open
+    else:
+        import unittest.mock as mock
+        with mock.patch('builtins.open', fake_open):
+            try:
+                r = fi.detect_file_format('x')
+                out = str(r)
+            except fi.ImageFormatError:
+                out = 'IFE'
+            except Exception as e:
+                out = 'EXC:' + type(e).__name__
+    ctx.check('C03-total', not out.startswith('EXC'))
+    present = {n: sig_present(S, n) for n in NONRAW}
+    npresent = count_true(present.values())
+    if out == 'IFE':
+        ctx.goal('ife')
+        ctx.check('C03-ife-justified', npresent >= 2)
+    elif out == 'raw':
+        ctx.goal('raw')
+        ctx.check('C03-raw-conservative', npresent == 0)
+    elif not out.startswith('EXC'):
+        ctx.goal('specific')
+        ctx.check('C03-signature-present', present[out])
+        ctx.check('C03-exclusive', npresent == 1)
+    return (out,)
+
+
+# ---------------------------------------------------------------- VMDK
+from spec import vmdk as VM                       # noqa: E402
+
+DESC_TEMPLATE = (
+    '# Disk DescriptorFile\n'
+    'version=1\n'
+    'CID=7d8a7c1e\n'
+    'parentCID=ffffffff\n'
+    'createType="monolithicSparse"\n'
+    '\n'
+    '# Extent description\n'
+    'RW 2048 SPARSE "disk.vmdk"\n'
+    '\n'
+    '# The Disk Data Base\n'
+    '#DDB\n'
+    '\n'
+    'ddb.virtualHWVersion = "4"\n'
+    'ddb.adapterType = "ide"\n')
+GD_AT_END = 0xffffffffffffffff
+VMDK_BOUND = 1536 * 1024
+# interesting symbolic positions inside the descriptor template
+_T = DESC_TEMPLATE
+DESC_POS = {
+    'line-start': _T.index('version=1'),
+    'field-eq': _T.index('=1'),
+    'ctype-first': _T.index('monolithicSparse'),
+    'ctype-last': _T.index('Sparse"') + 5,
+    'ctype-quote': _T.index('Sparse"') + 6,
+    'extent-access': _T.index('RW 2048'),
+    'extent-space': _T.index('RW 2048') + 2,
+    'extent-name': _T.index('disk.vmdk') + 4,
+    'comment-hash': _T.index('#DDB'),
+    'ddb-first': _T.index('ddb.virtualHW'),
+    'last-newline': len(_T) - 1,
+    'first-pad': len(_T),
+}
+ASCII = frozenset(range(128))
+
+
+def vmdk_text_of(S, dlen, ctx):
+    """the descriptor text as the reference reads it: bytes 512.. up to the
+    first NUL within dlen bytes, ascii; None if undecodable"""
+    if ctx.sym:
+        from symx.sstr import SymStr, SymChar
+        import z3
+        out = []
+        for k in range(dlen):
+            t = z3.simplify(S.s.at(z3.IntVal(512 + k)))
+            if z3.is_int_value(t):
+                v = t.as_long()
+                if v == 0:
+                    break
+                if v >= 128:
+                    return None
+                out.append(v)
+            else:
+                ch = SymChar.of_term(t)
+                if ch.in_set(frozenset([0])):
+                    break
+                if ch.in_set(frozenset(range(128, 256))):
+                    return None
+                out.append(ch)
+        return SymStr(out)
+    data = S.full[512:512 + dlen]
+    i = data.find(b'\x00')
+    if i >= 0:
+        data = data[:i]
+    try:
+        return data.decode('ascii')
+    except UnicodeDecodeError:
+        return None
+
+
+def scen_vmdk(ctx, M):
+    """Sparse VMDK (KDMV): header fields, descriptor text with symbolic
+    characters at configured positions, optional footer; run A (k cuts +
+    queries) vs run B (one chunk); reference verdicts for safety, size and
+    memory."""
+    fi = M.fi
+    p = ctx.p
+    D = p.get('desc_sectors', 1)
+    fixed = {i: b for i, b in enumerate(b'KDMV')}
+    fixed.update({4: 1, 28: 1, 36: D})
+    sym = []
+    hdr = p.get('hdr', ())
+    if 'version' in hdr:
+        sym.append(4)
+    if 'sectors' in hdr:
+        sym += [12, 19]
+    if 'desc_sec' in hdr:
+        sym.append(28)
+    if 'desc_num' in hdr:
+        sym += list(range(36, 44))
+        del fixed[36]
+    footer = p.get('footer', False)
+    if footer:
+        for j in range(8):
+            fixed[56 + j] = 0xff
+    if 'gd' in hdr:
+        sym.append(56)
+        fixed.pop(56, None)
+    for s_ in sym:
+        fixed.pop(s_, None)
+    text = p.get('template', DESC_TEMPLATE).encode('ascii')
+    for j, b in enumerate(text):
+        fixed[512 + j] = b
+    for name in p.get('desc_sym', ()):
+        pos = 512 + DESC_POS[name]
+        fixed.pop(pos, None)
+        sym.append(pos)
+    nmin = p.get('nmin', 0)
+    N = ctx.int('N', nmin, p.get('nmax', 4096))
+    segs = []
+    if footer:
+        ft = [0] * 1536
+        ft[12] = ('sym', 'ft_type') if 'type' in footer else 3
+        ft[8] = ('sym', 'ft_size') if 'size' in footer else 0
+        ft[500] = ('sym', 'ft_pad') if 'pad' in footer else 0
+        hd = bytearray(512)
+        hd[0:4] = b'KDMV'
+        hd[4] = 1
+        hd[28] = 1
+        hd[36] = D
+        for j, b in enumerate(hd):
+            ft[512 + j] = b
+        if 'ver' in footer:
+            ft[512 + 4] = ('sym', 'ft_ver')
+        if 'num' in footer:
+            ft[512 + 36] = ('sym', 'ft_num')
+        if 'gd' in footer:
+            ft[512 + 56] = ('sym', 'ft_gd')
+        if 'sig' in footer:
+            ft[512] = ('sym', 'ft_sig')
+        if 'eos' in footer:
+            ft[1024] = ('sym', 'ft_eosval')
+            ft[1024 + 12] = ('sym', 'ft_eostype')
+        if ctx.sym:
+            ctx.assume(N >= 512 + 512 * D + 1536)
+            segs.append((N - 1536, ft, 512 + 512 * D))
+    S = ctx.stream('S', N, sym_cells=sym, fixed=fixed,
+                   default=p.get('default', 0), segs=segs)
+    if footer and not ctx.sym:
+        ctx.assume(N >= 512 + 512 * D + 1536)
+    cs = cuts(ctx, p['cuts'], N)
+    cls = fi.VMDKInspector
+    eb, B = feed(ctx, fi, cls, [S.whole()], False)
+    ob = observe(ctx, fi, B) if eb is None else None
+    ea, A = feed(ctx, fi, cls, chunks_of(S, cs), True)
+    ctx.check('C01-rel-exception', ea == eb)
+    ctx.check('C03-total-only-IFE', ea in (None, 'ImageFormatError') and
+              eb in (None, 'ImageFormatError'))
+    total = 0
+    for v in A.context_info.values():
+        total = total + v
+    ctx.check('C05-bound', total <= VMDK_BOUND)
+    capsum = 0
+    for name, region in A._capture_regions.items():
+        capsum = capsum + region.length
+    ctx.check('C05-region-caps', capsum <= VMDK_BOUND)
+    if ea is not None or eb is not None:
+        ctx.goal('rejected-by-eat_chunk')
+        # reference: rejected exactly for a bad version / descriptor sector
+        ver = S.le(4, 4)
+        dsec = S.le(28, 8)
+        ctx.check('C02-reject-justified',
+                  OR(AND(ver != 1, ver != 2, ver != 3), dsec != 1,
+                     N < 64))
+        return (ea, eb)
+    oa = observe(ctx, fi, A)
+    ctx.check('C01-rel-match', oa[0] == ob[0])
+    ctx.check('C01-rel-complete', oa[1] == ob[1])
+    ctx.check('C01-rel-size', h.veq(oa[2], ob[2]))
+    ctx.check('C01-rel-safety', oa[3] == ob[3])
+    retained_ok(ctx, A, S, 'C01-retain')
+    m, c, vs, sc = oa
+    ctx.check('C03-match-iff-signature', h.veq(m, S.has(0, b'KDMV')))
+    # ---- reference
+    dnum = S.le(36, 8)
+    if 'desc_num' in hdr:
+        # symbolic descriptor size: only the memory and relational
+        # obligations apply
+        return (ea, eb, m, c, vs, sc)
+    dlen = min(D * 512, (1 << 20) - 1)
+    have_desc = ctx.truth(N >= 512 + dlen)
+    need_footer = footer and 'gd' not in hdr
+    ref_complete = AND(N >= 64, have_desc)
+    if need_footer:
+        ref_complete = AND(ref_complete, N >= 1536)
+    ctx.check('C01-ref-complete', h.veq(c, ref_complete))
+    if not have_desc:
+        ctx.goal('truncated-descriptor')
+        ctx.check('C07-zero-while-unknown', h.veq(vs, 0))
+        ctx.check('C02-incomplete-refused', sc == 'refused')
+        return (ea, eb, m, c, vs, sc)
+    text_ = vmdk_text_of(S, dlen, ctx)
+    if text_ is None:
+        safe, defined = False, True
+        ct = None
+    else:
+        safe, defined = VM.descriptor_safe(text_)
+        ct, _d = VM.create_type(text_)
+    if not defined:
+        ctx.goal('unspecified-createType')
+        return (ea, eb, m, c, vs, sc)
+    supported = False
+    if ct is not None:
+        for s_ in VM.SUPPORTED:
+            if ctx.truth(ct == s_):
+                supported = True
+    if supported:
+        ctx.check('C07-size', h.veq(vs, S.le(12, 8) * 512))
+    else:
+        ctx.check('C07-unsupported-zero', h.veq(vs, 0))
+    if c and m:
+        if sc == 'ok':
+            ctx.goal('accepted')
+            ctx.check('C02-accepted-needs-safe-descriptor', safe)
+        elif sc.startswith('fail:'):
+            ctx.goal('failed')
+            got = set(sc[5:].split(','))
+            ctx.check('C02-descriptor-check',
+                      ('descriptor' in got) == (not safe))
+            if not footer:
+                ctx.check('C02-no-footer-check', 'footer' not in got)
+        else:
+            ctx.check('C02-no-other-outcome', False)
+        if safe and (not footer or
+                     not ctx.truth(S.le(56, 8) == GD_AT_END)):
+            ctx.check('C02-clean-accepted', sc == 'ok')
+    else:
+        ctx.check('C02-refused-iff', sc == 'refused')
+    if footer and c and m and ctx.truth(S.le(56, 8) == GD_AT_END):
+        # footer reference: marker type 3 / size 0 / zero pad, footer header
+        # equal to the header in signature, version, descriptor location,
+        # and not itself announcing a footer; EOS marker all zero
+        fo = N - 1536
+        okf = AND(S.le(fo + 8, 4) == 0, S.le(fo + 12, 4) == 3,
+                  S.byte(fo + 500) == 0,
+                  S.byte(fo + 512) == ord('K'),
+                  S.le(fo + 512 + 4, 4) == S.le(4, 4),
+                  S.le(fo + 512 + 28, 8) == S.le(28, 8),
+                  S.le(fo + 512 + 36, 8) == S.le(36, 8),
+                  S.le(fo + 512 + 56, 8) != GD_AT_END,
+                  S.le(fo + 1024, 8) == 0, S.le(fo + 1024 + 12, 4) == 0)
+        if sc == 'ok':
+            ctx.check('C02-accepted-needs-consistent-footer', okf)
+        elif sc.startswith('fail:'):
+            ctx.check('C02-footer-check',
+                      h.veq('footer' in set(sc[5:].split(',')), NOT(okf)))
+        if safe and ctx.truth(okf):
+            ctx.goal('clean-footer')
+            ctx.check('C02-clean-accepted', sc == 'ok')
+    return (ea, eb, m, c, vs, sc)
+
+
+def vmdk_jobs(J, H, props, tier, kinds, k=1):
+    """kinds: subset of {'hdr','desc1','desc2','footer','descnum'}"""
+    P = {'props': sorted(props)}
+    jobs = []
+    names = list(DESC_POS)
+    if 'hdr' in kinds:
+        jobs.append(J(H['vmdk'], dict(P, cuts=k, hdr=['version', 'sectors',
+                                                      'desc_sec']),
+                      split_depth=12))
+        jobs.append(J(H['vmdk'], dict(P, cuts=k, hdr=['gd'], footer=['type'],
+                                      nmax=4096), split_depth=10))
+    if 'desc1' in kinds:
+        for n in names:
+            jobs.append(J(H['vmdk'], dict(P, cuts=k, desc_sym=[n],
+                                          nmax=2048)))
+    if 'desc2' in kinds:
+        pairs = [(a, b) for i, a in enumerate(names) for b in names[i + 1:]]
+        if tier == 'quick':
+            pairs = [pr for j, pr in enumerate(pairs) if j % 11 == 0]
+        for a, b in pairs:
+            jobs.append(J(H['vmdk'], dict(P, cuts=0, desc_sym=[a, b],
+                                          nmin=1024, nmax=2048),
+                          split_depth=10))
+    if 'footer' in kinds:
+        sets = [['type', 'size', 'pad'], ['ver', 'num', 'gd', 'sig'],
+                ['eos']]
+        for fs in sets:
+            jobs.append(J(H['vmdk'], dict(P, cuts=k, footer=fs, nmax=8192),
+                          split_depth=12))
+    if 'descnum' in kinds:
+        jobs.append(J(H['vmdk'], dict(P, cuts=k, hdr=['desc_num'],
+                                      nmax=1200), split_depth=12))
+    return jobs
+
+
+# ---------------------------------------------------------------- VMDK text
+TEXT_DESC = (
+    '# Disk DescriptorFile\n'
+    'version=1\n'
+    'createType="monolithicSparse"\n'
+    'RW 2048 SPARSE "disk.vmdk"\n'
+    + ' ' * 520 + '\n'
+    'RW 2048 SPARSE "@isk.vmdk"\n')
+
+
+def scen_vmdk_text(ctx, M):
+    """Text-only VMDK descriptor (no KDMV): the inspector parses only what
+    the first chunk held (known finding F1), so the chunking-independence
+    obligations are exempted by F1 here; totality, retention and the memory
+    bound still apply."""
+    fi = M.fi
+    text = TEXT_DESC.encode('ascii')
+    at = TEXT_DESC.index('@')
+    fixed = {i: b for i, b in enumerate(text)}
+    del fixed[at]
+    N = len(text)
+    S = ctx.stream('S', N, sym_cells=[at], fixed=fixed, default=0)
+    c1 = ctx.choice('c1', [64, 100, 512, 600, N])
+    cls = fi.VMDKInspector
+    eb, B = feed(ctx, fi, cls, [S.whole()], False)
+    ob = observe(ctx, fi, B) if eb is None else None
+    ea, A = feed(ctx, fi, cls, [S.slice(0, c1), S.slice(c1, N)], True)
+    f1 = [('F1', True)]
+    ctx.check('C01-rel-exception', ea == eb, unless=f1)
+    ctx.check('C03-total-only-IFE', ea in (None, 'ImageFormatError') and
+              eb in (None, 'ImageFormatError'))
+    total = 0
+    for v in A.context_info.values():
+        total = total + v
+    ctx.check('C05-bound', total <= VMDK_BOUND)
+    if ea is not None or eb is not None:
+        return (ea, eb)
+    oa = observe(ctx, fi, A)
+    ctx.check('C01-rel-match', oa[0] == ob[0], unless=f1)
+    ctx.check('C01-rel-complete', oa[1] == ob[1], unless=f1)
+    ctx.check('C01-rel-size', h.veq(oa[2], ob[2]), unless=f1)
+    ctx.check('C01-rel-safety', oa[3] == ob[3], unless=f1)
+    retained_ok(ctx, A, S, 'C01-retain')
+    # C02: an extent naming a path must never be accepted
+    slash = S.byte(at) == ord('/')
+    for o in (oa, ob):
+        if o[3] == 'ok':
+            ctx.check('C02-accepted-extent-with-path', NOT(slash),
+                      unless=f1)
+    ctx.check('C07-text-size-zero', h.veq(oa[2], 0))
+    ctx.goal('text-mode')
+    return (ea, eb) + tuple(oa) + tuple(ob)
